@@ -160,15 +160,17 @@ func c09Alphabet(thorough bool) []string {
 	// a delete whose client address names the other peer's device (same entity and feature numbers):
 	// it addresses no binding of the sender and must not touch the other peer's binding
 	a = append(a, "unbind:B:e1f1:L1lc:x", "unbind:A:e1f1:L2lc:x")
+	// nested addresses: local sub-entity [1,1] (same feature numbers as [1]); peers' sub-entity [1,1] (same client features as [1])
+	a = append(a, "bind:A:e1f1:L11lc:lc:d", "bind:B:e11f1:L1lc:lc:d", "unbind:A:e1f1:L11lc:d", "unbind:B:e11f1:L1lc:d", "bind:B:e11f1:L11lc:lc:d")
 	// a write shows that authorisation follows the registry (C03 owns the details)
-	a = append(a, "write:A:e1f1:L1lc:limit:ack:2", "write:B:e1f1:L2lc:limit:ack:2")
+	a = append(a, "write:A:e1f1:L1lc:limit:ack:2", "write:B:e1f1:L2lc:limit:ack:2", "write:A:e1f1:L11lc:limit:ack:2")
 	return a
 }
 
 func c09Drivers(thorough bool) []*engine.HDriver {
 	extra := func(rw *regWorld, op string) []string {
 		var v []string
-		for _, s := range []string{"L1lc", "L2lc", "L1ms"} {
+		for _, s := range []string{"L1lc", "L2lc", "L1ms", "L11lc"} {
 			if n := len(rw.w.L.BindingManager().BindingsOnFeature(*srvAddr(s, true))); n > 1 {
 				v = append(v, fmt.Sprintf("more than one binding on a server feature | %s n=%d op=%s", s, n, op))
 			}
